@@ -344,11 +344,20 @@ pub fn exec(op: &str, a: &[u64]) -> Result<Outcome, String> {
             std::thread::sleep(Duration::from_millis(30));
             let ahead = pulled.load(Ordering::SeqCst);
             drop(it);
-            std::thread::sleep(Duration::from_millis(40));
+            // wait (generously: the machine may be busy) for the thread-exit schedule point, then the pull counter
+            // must be stable
+            let start = std::time::Instant::now();
+            let mut exited = false;
+            while start.elapsed() < Duration::from_secs(30) {
+                if sched.observed().iter().any(|e| e.0 == "buffered" && e.1 == "exit") {
+                    exited = true;
+                    break;
+                }
+                std::thread::sleep(Duration::from_millis(5));
+            }
             let p1 = pulled.load(Ordering::SeqCst);
             std::thread::sleep(Duration::from_millis(40));
             let p2v = pulled.load(Ordering::SeqCst);
-            let exited = sched.observed().iter().any(|e| e.0 == "buffered" && e.1 == "exit");
             Sched::uninstall();
             let mut o = Outcome::new(format!("ok {}", got.len()));
             o.check(got.iter().enumerate().all(|(i, v)| *v == i as u64), "buffered iterator is not the upstream sequence");
@@ -575,6 +584,13 @@ pub fn run_c09(ctx: &mut Ctx) {
         let k = ctx.rng.random_range(0..=20u64);
         let n = if i % 3 == 0 { ctx.rng.random_range(0..=30u64) } else { 0 };
         ctx.case("bufdrop", &[b, k, n]);
+    }
+    // a panic in the very first item while the constructor is still spawning workers
+    if ctx.first_shard() {
+        let early: &[(u64, u64)] = if ctx.thorough { &[(16, 40), (32, 40), (64, 40), (16, 40), (32, 40)] } else { &[(16, 40), (32, 40)] };
+        for &(w, n) in early {
+            ctx.case("pipepanic", &[w, n, 0]);
+        }
     }
     let np = ctx.budget(6, 60);
     for _ in 0..np {
